@@ -149,7 +149,7 @@ PLAN = {
         clauses=["every accepted value: exactly one of {resident, on_exit, on_evict, on_reject, overwritten in place}", "none of them only if dropped inside a clear()/close() call",
                  "never two", "no look-up returns a value after its callback", "no value leaked after the cache and its workers are gone", "lockstep: callback kind matches the cause",
                  "directed close: values accepted into the insert buffer before close() sent its stop signal (processor parked holding an item) end resident or with exactly one callback - only resident values may be dropped silently by close()"],
-        minimum=dict(quick=dict(ho_c08_values_accounted=20000, ho_callbacks=10000, ls_histories=200, lc_values_buffered_before_the_stop_signal=40, lc_buffered_values_handed_to_a_callback_at_stop=10)),
+        minimum=dict(quick=dict(ho_c08_values_accounted=20000, ho_callbacks=10000, ls_histories=200, lc_values_buffered_before_the_stop_signal=40)),
         assumptions=["collision-free keys; no ValueRefMut::write (drops the replaced value in the caller by design)"],
     ),
     "C09": dict(
